@@ -1,9 +1,211 @@
-// C50 — AutoNAT v1 dial-back address filter (real Multiaddr; the local
-// `distinct` HashSet is the dependency shim).  Contract from the statement:
-// every returned address (a) has ALL its IP components equal to the observed IP,
-// (b) contains no relay hop, (c) ends with /p2p/<requester>, (d) is distinct;
-// an observed address without IP yields nothing.
-use std::net::{Ipv4Addr, Ipv6Addr};
+// C50 — AutoNAT v1 dial-back address filter `AsServer::filter_valid_addrs`.
+//
+// Contract, from the property statement: every address the server is left with
+// (and will therefore dial)
+//   (a) has ALL its IP components equal to the IP observed for the requester,
+//   (b) contains no relay hop (/p2p-circuit),
+//   (c) ENDS with /p2p/<requester>,
+//   (d) is distinct from the other returned addresses;
+// an observed address without an IP component yields nothing.
+//
+// Group "seq": the text of `filter_valid_addrs` is extracted verbatim on every run
+// (units/C50/unit.json `fragments`) and compiled against the stand-ins of
+// units/C50/model.rs for `Multiaddr` / `Protocol` / `PeerId` and the dependency shim
+// for the function-local `HashSet`.  Inputs: ANY list of <= 2 demanded addresses of
+// <= 4 components each, every component any of Ip4(any u32) / Ip6(any u128) /
+// P2p(any of 256 peers) / P2pCircuit / Other(any kind, any payload), any requester,
+// and any observed address of <= 2 components with at most one IP component.
+//
+// Group "real" (thorough tier): the real function on the real `Multiaddr` for the
+// two defect witnesses with symbolic IPs (M-route cross-check; measured > 600 s).
+
+pub(crate) mod seq {
+    #[allow(unused_imports)]
+    use super::*;
+    pub(crate) mod model {
+        include!(concat!(env!("LIBP2P_VERIF"), "/units/C50/model.rs"));
+    }
+    use self::model::{Multiaddr, PeerId, Protocol};
+
+    pub(crate) struct SeqServer;
+    // impl SeqServer { <verbatim text of AsServer::filter_valid_addrs> }
+    include!(concat!(env!("LIBP2P_VERIF_GEN"), "/C50/filter_fn.rs"));
+
+    fn any_component() -> Protocol {
+        let k: u8 = kani::any();
+        match k {
+            0 => Protocol::Ip4(kani::any()),
+            1 => Protocol::Ip6(kani::any()),
+            2 => Protocol::P2p(PeerId(kani::any())),
+            3 => Protocol::P2pCircuit,
+            _ => Protocol::Other(kani::any(), kani::any()),
+        }
+    }
+
+    fn any_addr(max: usize) -> Multiaddr {
+        let n: usize = kani::any();
+        kani::assume(n <= max);
+        let mut a = Multiaddr::empty();
+        let mut i = 0;
+        while i < max {
+            if i < n {
+                a.push(any_component());
+            }
+            i += 1;
+        }
+        a
+    }
+
+    fn is_ip(p: &Protocol) -> bool {
+        matches!(p, Protocol::Ip4(_) | Protocol::Ip6(_))
+    }
+    fn count_ip(a: &Multiaddr) -> usize {
+        a.iter().filter(|p| is_ip(p)).count()
+    }
+    /// P2p components occur, if at all, only in last position
+    fn p2p_only_last(a: &Multiaddr) -> bool {
+        let n = a.len();
+        a.iter().enumerate().all(|(i, p)| !matches!(p, Protocol::P2p(_)) || i + 1 == n)
+    }
+
+    struct Request {
+        requester: PeerId,
+        demanded: Vec<Multiaddr>,
+        observed: Multiaddr,
+        observed_ip: Option<Protocol>,
+    }
+
+    fn any_observed() -> (Multiaddr, Option<Protocol>) {
+        let observed = any_addr(2);
+        // the address a connection was observed at names one host
+        kani::assume(count_ip(&observed) <= 1);
+        let observed_ip = observed.iter().find(|p| is_ip(p));
+        (observed, observed_ip)
+    }
+
+    /// a request demanding ONE address of <= 4 components (the per-address clauses)
+    fn any_request() -> Request {
+        let (observed, observed_ip) = any_observed();
+        Request { requester: PeerId(kani::any()), demanded: vec![any_addr(4)], observed, observed_ip }
+    }
+
+    /// a request demanding TWO addresses of <= 3 components each (the cross-address clauses)
+    fn any_request_of_two() -> Request {
+        let (observed, observed_ip) = any_observed();
+        Request { requester: PeerId(kani::any()), demanded: vec![any_addr(3), any_addr(3)], observed, observed_ip }
+    }
+
+    fn all_ips_are(a: &Multiaddr, ip: &Protocol) -> bool {
+        a.iter().all(|p| !is_ip(&p) || &p == ip)
+    }
+
+    /// (a) every IP component of every returned address is the observed IP
+    #[kani::proof]
+    #[kani::unwind(7)]
+    fn every_ip_component_is_the_observed_ip() {
+        let r = any_request();
+        let out = SeqServer::filter_valid_addrs(r.requester, r.demanded, &r.observed);
+        kani::cover!(out.len() == 1);
+        if let Some(ip) = r.observed_ip {
+            for a in out.iter() {
+                assert!(all_ips_are(a, &ip), "C50(a): a returned address carries an IP component other than the observed IP");
+            }
+        }
+    }
+
+    /// (a) restricted to demanded addresses with at most one IP component (the class
+    /// the crate's own test covers): keeps the check sensitive to any other way of
+    /// letting a foreign IP through
+    #[kani::proof]
+    #[kani::unwind(7)]
+    fn single_ip_demands_carry_only_the_observed_ip() {
+        let r = any_request();
+        kani::assume(r.demanded.iter().all(|a| count_ip(a) <= 1));
+        let out = SeqServer::filter_valid_addrs(r.requester, r.demanded, &r.observed);
+        kani::cover!(out.len() == 1);
+        if let Some(ip) = r.observed_ip {
+            for a in out.iter() {
+                assert!(all_ips_are(a, &ip), "a returned address carries an IP component other than the observed IP");
+                assert!(count_ip(a) == 1);
+            }
+        }
+    }
+
+    /// (b) no returned address contains a relay hop, nor a /p2p component naming somebody else
+    #[kani::proof]
+    #[kani::unwind(7)]
+    fn no_relay_hop_is_dialed() {
+        let r = any_request();
+        let me = r.requester;
+        let out = SeqServer::filter_valid_addrs(r.requester, r.demanded, &r.observed);
+        kani::cover!(out.len() == 1);
+        for a in out.iter() {
+            assert!(a.iter().all(|p| p != Protocol::P2pCircuit), "a returned address contains /p2p-circuit");
+            assert!(a.iter().all(|p| !matches!(p, Protocol::P2p(q) if q != me)), "a returned address names a foreign peer");
+        }
+    }
+
+    /// (c) every returned address ENDS with /p2p/<requester>
+    #[kani::proof]
+    #[kani::unwind(7)]
+    fn every_address_ends_with_the_requester() {
+        let r = any_request();
+        let me = r.requester;
+        let out = SeqServer::filter_valid_addrs(r.requester, r.demanded, &r.observed);
+        kani::cover!(out.len() == 1);
+        for a in out.iter() {
+            assert!(a.iter().last() == Some(Protocol::P2p(me)), "C50(c): a returned address does not END with /p2p/<requester>");
+        }
+    }
+
+    /// (c) restricted to demanded addresses whose /p2p component, if any, is the last one
+    #[kani::proof]
+    #[kani::unwind(7)]
+    fn trailing_or_absent_p2p_ends_with_the_requester() {
+        let r = any_request();
+        let me = r.requester;
+        kani::assume(r.demanded.iter().all(|a| p2p_only_last(a)));
+        let out = SeqServer::filter_valid_addrs(r.requester, r.demanded, &r.observed);
+        kani::cover!(out.len() == 1);
+        for a in out.iter() {
+            assert!(a.iter().last() == Some(Protocol::P2p(me)), "a returned address does not END with /p2p/<requester>");
+        }
+    }
+
+    /// (d) returned addresses are pairwise distinct; nothing is invented (at most one
+    /// result per demanded address); no observed IP => nothing to dial
+    #[kani::proof]
+    #[kani::unwind(7)]
+    fn distinct_and_nothing_without_observed_ip() {
+        let r = any_request_of_two();
+        let n = r.demanded.len();
+        let out = SeqServer::filter_valid_addrs(r.requester, r.demanded, &r.observed);
+        kani::cover!(out.len() == 2);
+        kani::cover!(out.len() == 1);
+        kani::cover!(r.observed_ip.is_none());
+        assert!(out.len() <= n);
+        if out.len() == 2 {
+            assert!(out[0] != out[1], "the same address is returned twice");
+        }
+        if r.observed_ip.is_none() {
+            assert!(out.is_empty(), "addresses returned although no IP was observed for the requester");
+        }
+    }
+
+    /// Vacuity canary: must FAIL (the filter does let well-formed demands through).
+    #[kani::proof]
+    #[kani::unwind(7)]
+    fn canary_filter_returns_nothing() {
+        let r = any_request();
+        let out = SeqServer::filter_valid_addrs(r.requester, r.demanded, &r.observed);
+        assert!(out.is_empty());
+    }
+}
+
+// ---------------------------------------------------------------------------
+// M-route cross-check on the real function and the real `Multiaddr` (thorough tier)
+
+use std::net::Ipv4Addr;
 
 fn peer(b: u8) -> PeerId {
     PeerId::from_multihash(libp2p_core::multihash::Multihash::<64>::wrap(0, &[b]).unwrap()).unwrap()
@@ -11,14 +213,6 @@ fn peer(b: u8) -> PeerId {
 
 fn ip4(x: u32) -> Protocol<'static> {
     Protocol::Ip4(Ipv4Addr::from(x))
-}
-
-fn addr(parts: &[Protocol<'static>]) -> Multiaddr {
-    let mut a = Multiaddr::empty();
-    for p in parts {
-        a = a.with(p.clone());
-    }
-    a
 }
 
 fn check_output(out: &[Multiaddr], requester: PeerId, observed: &Protocol<'static>) {
@@ -34,112 +228,26 @@ fn check_output(out: &[Multiaddr], requester: PeerId, observed: &Protocol<'stati
         }
         assert!(last == Some(Protocol::P2p(requester)));
     }
-    if out.len() == 2 {
-        assert!(out[0] != out[1]);
-    }
 }
 
-/// single demanded address /ip4/D/tcp/p: the demanded IP is replaced by the observed one
+/// /ip4/D/tcp/1/ip4/V/tcp/2 demanded: no returned address carries an IP other than the observed one
 #[kani::proof]
 #[kani::unwind(24)]
-fn filter_replaces_ip_and_appends_peer() {
-    let me = peer(kani::any());
-    let (d, o): (u32, u32) = (kani::any(), kani::any());
-    let port: u16 = kani::any();
-    let out = AsServer::filter_valid_addrs(me, vec![addr(&[ip4(d), Protocol::Tcp(port)])], &addr(&[ip4(o), Protocol::Tcp(1)]));
-    assert!(out.len() == 1);
-    check_output(&out, me, &ip4(o));
-    assert!(out[0] == addr(&[ip4(o), Protocol::Tcp(port), Protocol::P2p(me)]));
-}
-
-/// a demanded address with a SECOND IP component (which e.g. the TCP transport
-/// would dial, since it reads the last ip/tcp pair) must never come out carrying
-/// a foreign IP
-#[kani::proof]
-#[kani::unwind(24)]
-fn filter_second_ip_component_cannot_smuggle_a_target() {
+fn real_second_ip_component_cannot_smuggle_a_target() {
     let me = peer(1);
     let (d, victim, o): (u32, u32, u32) = (kani::any(), kani::any(), kani::any());
-    let demanded = addr(&[ip4(d), Protocol::Tcp(kani::any()), ip4(victim), Protocol::Tcp(kani::any())]);
-    let out = AsServer::filter_valid_addrs(me, vec![demanded], &addr(&[ip4(o), Protocol::Tcp(1)]));
-    kani::cover!(out.len() == 1);
+    let demanded = Multiaddr::empty().with(ip4(d)).with(Protocol::Tcp(1)).with(ip4(victim)).with(Protocol::Tcp(2));
+    let out = AsServer::filter_valid_addrs(me, vec![demanded], &Multiaddr::empty().with(ip4(o)));
     check_output(&out, me, &ip4(o));
 }
 
-/// relay hops and foreign /p2p components are refused; the requester's own /p2p is kept
+/// /ip4/D/p2p/<requester>/tcp/1 demanded: whatever is returned ends with /p2p/<requester>
 #[kani::proof]
 #[kani::unwind(24)]
-fn filter_relay_and_foreign_peer_refused() {
-    let me = peer(1);
-    let other = peer(kani::any());
-    let o: u32 = kani::any();
-    let observed = addr(&[ip4(o), Protocol::Tcp(1)]);
-    let relay = addr(&[ip4(kani::any()), Protocol::Tcp(2), Protocol::P2p(other), Protocol::P2pCircuit]);
-    let out = AsServer::filter_valid_addrs(me, vec![relay], &observed);
-    assert!(out.is_empty());
-    let foreign = addr(&[ip4(kani::any()), Protocol::Tcp(2), Protocol::P2p(other)]);
-    let out = AsServer::filter_valid_addrs(me, vec![foreign], &observed);
-    if other != me {
-        assert!(out.is_empty());
-    } else {
-        assert!(out.len() == 1);
-        check_output(&out, me, &ip4(o));
-    }
-}
-
-/// /p2p/<requester> in the middle of an address: whatever is returned must still
-/// END with the requester's peer id
-#[kani::proof]
-#[kani::unwind(24)]
-fn filter_inner_peer_id_still_ends_with_peer() {
+fn real_inner_peer_id_still_ends_with_peer() {
     let me = peer(1);
     let o: u32 = kani::any();
-    let demanded = addr(&[ip4(kani::any()), Protocol::P2p(me), Protocol::Tcp(kani::any())]);
-    let out = AsServer::filter_valid_addrs(me, vec![demanded], &addr(&[ip4(o), Protocol::Tcp(1)]));
+    let demanded = Multiaddr::empty().with(ip4(kani::any())).with(Protocol::P2p(me)).with(Protocol::Tcp(1));
+    let out = AsServer::filter_valid_addrs(me, vec![demanded], &Multiaddr::empty().with(ip4(o)));
     check_output(&out, me, &ip4(o));
-}
-
-/// duplicates collapse; addresses without an IP component (DNS-less here: bare
-/// tcp) and an observed address without IP yield nothing
-#[kani::proof]
-#[kani::unwind(24)]
-fn filter_distinct_and_no_ip_cases() {
-    let me = peer(1);
-    let o: u32 = kani::any();
-    let observed = addr(&[ip4(o), Protocol::Tcp(1)]);
-    let (d1, d2): (u32, u32) = (kani::any(), kani::any());
-    let port: u16 = kani::any();
-    // two demanded addresses that differ only in the (replaced) IP are one address afterwards
-    let out = AsServer::filter_valid_addrs(
-        me,
-        vec![addr(&[ip4(d1), Protocol::Tcp(port)]), addr(&[ip4(d2), Protocol::Tcp(port)])],
-        &observed,
-    );
-    assert!(out.len() == 1);
-    check_output(&out, me, &ip4(o));
-    let out = AsServer::filter_valid_addrs(me, vec![addr(&[Protocol::Tcp(port)])], &observed);
-    assert!(out.is_empty());
-    let out = AsServer::filter_valid_addrs(me, vec![addr(&[ip4(d1), Protocol::Tcp(port)])], &addr(&[Protocol::Tcp(1)]));
-    assert!(out.is_empty());
-}
-
-/// IPv6 observed address replaces an IPv4 demanded one
-#[kani::proof]
-#[kani::unwind(24)]
-fn filter_ip6_observed() {
-    let me = peer(1);
-    let o: u128 = kani::any();
-    let obs = Protocol::Ip6(Ipv6Addr::from(o));
-    let out = AsServer::filter_valid_addrs(me, vec![addr(&[ip4(kani::any()), Protocol::Tcp(kani::any())])], &addr(&[obs.clone(), Protocol::Tcp(1)]));
-    assert!(out.len() == 1);
-    check_output(&out, me, &obs);
-}
-
-/// Vacuity canary: must FAIL.
-#[kani::proof]
-#[kani::unwind(24)]
-fn canary_filter_returns_nothing() {
-    let me = peer(1);
-    let out = AsServer::filter_valid_addrs(me, vec![addr(&[ip4(1), Protocol::Tcp(1)])], &addr(&[ip4(2), Protocol::Tcp(1)]));
-    assert!(out.is_empty());
 }
